@@ -131,6 +131,13 @@ def _get_orbit(spec):
         mu = float(sysobj.mu)
         if not (np.all(np.isfinite(x0)) and math.isfinite(T) and T > 0):
             raise ValueError("non-finite orbit")
+        if spec.get("phase"):
+            # the same periodic orbit re-expressed from a point OFF its symmetry section (GenericOrbit started at
+            # phase*T): Floquet directions must be those of the monodromy at the orbit's own initial state
+            from hiten.system.orbits.base import GenericOrbit
+            x0 = np.array(O.flow(x0, float(spec["phase"]) * T, mu), dtype=float)
+            orbit = GenericOrbit(L, initial_state=x0)
+            orbit.period = T
     except Exception as e:  # noqa: BLE001 - building the orbit is not the property under test (C05)
         ent["why"] = "correction-failed:" + type(e).__name__
         _orb_cache[k] = ent
@@ -181,6 +188,12 @@ def _build_pool(ctx):
             continue
         if spec not in pool:
             pool.append(spec)
+            off = dict(spec, phase=[0.3, 0.62, 0.17, 0.81][(ctx.shard + j) % 4])
+            ento = _get_orbit(off)
+            if not ento["why"]:
+                pool.append(off)
+            else:
+                ctx.case(n=0, cls="pool:off-section:%s" % ento["why"].split("(")[0])
     return pool
 
 
